@@ -108,6 +108,7 @@ func (r *Report) Finish() int {
 	var samples []map[string]any
 	var abstractions []string
 	var funcs []map[string]any
+	coversOK, coversBad, coversUndecided := 0, 0, 0
 	for _, fr := range r.Results {
 		if fr.Err != "" {
 			fmt.Printf("ENGINE-ERROR in %s: %s\n", fr.Name, fr.Err)
@@ -132,6 +133,18 @@ func (r *Report) Finish() int {
 				}
 			} else {
 				failed = append(failed, failure{o, fr})
+			}
+		}
+		for _, cv := range fr.Covers {
+			switch cv.Res.Status {
+			case "unsat":
+				fmt.Printf("VACUOUS: %s is unreachable under the assumed contracts (%s)\n", cv.Name, cv.Clause)
+				engineErr = true
+				coversBad++
+			case "sat":
+				coversOK++
+			default:
+				coversUndecided++
 			}
 		}
 		vac := "not-run"
@@ -298,6 +311,7 @@ func (r *Report) Finish() int {
 				"abstractions":           abstractions,
 				"callee_contracts_used":  contractsCalled,
 				"bounded":                r.boundedList(),
+				"vacuity_covers":         map[string]int{"reachable": coversOK, "unreachable": coversBad, "undecided": coversUndecided},
 				"explanation":            "Every obligation is a verification condition generated from the current /repo source (go/ssa, build tag verif) and the //@ contracts in verif_contracts.go; 'discharged' counts obligations some solver answered unsat for. Obligations folded to true by the generator's constant folding are counted separately.",
 			},
 			"assumptions": append(append([]string{
